@@ -690,11 +690,22 @@ func c31Run(rt *rapid.T) {
 			tok statelessResetToken
 		}
 		var seen []obs
+		// Half of the runs hand the generator connection IDs that live in one
+		// recycled buffer, as Endpoint.maybeSendStatelessReset does with a slice of
+		// the received datagram: the generator must not keep what it was given.
+		recycle := vs.Bool(c)
+		var rbuf [64]byte
+		if recycle {
+			vs.G.Inc("probe.reset_token_cid_in_recycled_buffer")
+		}
 		for n := vs.Range(c, 2, 8); n > 0 && viol == nil; n-- {
 			g := c.Intn(3)
 			id := cid()
 			if vs.Pct(c, 30) {
 				id = flip(id)
+			}
+			if recycle && len(id) <= len(rbuf) {
+				id = rbuf[:copy(rbuf[:], id)]
 			}
 			var tok statelessResetToken
 			if viol = vs.Guard("C31", "panic_in_tokenForConnID", func() { tok = gens[g].tokenForConnID(id) }); viol != nil {
@@ -709,7 +720,7 @@ func c31Run(rt *rapid.T) {
 					viol = vs.Violf("C31", "reset_token_collision", "reset_token_equal_for_different_input", "tokenForConnID gave %x for (key %d, cid %x) and (key %d, cid %x)", tok, o.g, o.cid, g, id)
 				}
 			}
-			seen = append(seen, obs{g, id, tok})
+			seen = append(seen, obs{g, append([]byte(nil), id...), tok})
 		}
 		vs.G.Inc("probe.reset_tokens_checked")
 	}
